@@ -568,6 +568,20 @@ pub fn intercept_scenarios() -> Vec<Scenario> {
             ],
         });
     }
+    // one thread compiles an expression it has compiled before while another compiles K new ones (small fixed-size
+    // memos hand out slots that the churn overwrites)
+    for k in [40usize, 300] {
+        let name: &'static str = Box::leak(format!("compile-hot-while-churning-{}", k).into_boxed_str());
+        let churn: Vec<Op> = (0..k).map(|i| Op::CompileSearch(Box::leak(format!("'churn-{}' || people[{}].name", i, i % 2).into_boxed_str()), 0)).collect();
+        v.push(Scenario {
+            max_bound: Some(2),
+            name,
+            exprs: vec![],
+            custom: vec![],
+            inputs: vec![people.clone()],
+            threads: vec![vec![Op::CompileSearch("people[0].name", 0), Op::CompileSearch("people[1].name", 0), Op::CompileSearch("people[0].name", 0)], churn],
+        });
+    }
     // the hook-level scenarios once more, now with the crate's own synchronisation visible
     for s in scenarios(Tier::Quick) {
         v.push(s);
@@ -604,6 +618,11 @@ pub fn intercept_child(name: &str, mode: &str) -> i32 {
     let runner = shuttle::Runner::new(Rec(PbDfs::replay(choices), widths), config());
     runner.run(move || {
         // everything that touches the crate happens inside the execution (intercepted primitives need one)
+        if s.name.starts_with("compile-hot-while-churning-") {
+            for e in ["people[0].name", "people[1].name"] {
+                let _ = jmespath::compile(e);
+            }
+        }
         if let Some(k) = s.name.strip_prefix("compile-under-cache-pressure-").and_then(|k| k.parse::<usize>().ok()) {
             // the known expressions first, then distinct fillers, on the main task (no alternatives yet)
             for e in ["people[0].name", "people[1].name"] {
@@ -1048,7 +1067,7 @@ pub fn run(tier: Tier, obligations: u64) -> i32 {
     rep.guard("pre-empting schedules were explored", st.nontrivial > 100);
     rep.guard("fresh-process first-use schedules were explored", fu > 5);
     rep.guard("type-level obligations discharged", obligations > 0);
-    rep.rule = "leg 1 (compile time): Send + Sync obligations on the public types under --features sync and the library under -F unsafe_code; leg 2: for each scenario (2-3 threads on shared Arc<Expression> / shared Arc inputs, chosen to collide: failing calls at different offsets, by-functions with nested calls, a shared literal, a custom runtime whose functions yield, compile inside threads, deep expressions whose evaluations overlap) every schedule with at most c pre-emptions for c = 0,1,2(,3) over the hook points {search-enter, interpret, call, validate, error, get_function, compile}, plus unbounded DFS over the coarse points {search-enter, call, error}; first use of DEFAULT_RUNTIME: one fresh process per schedule with bounded deviations; leg 2c (intercepted synchronisation): the harness built against a rewritten copy of the crate in which std::sync / std::thread / thread_local! resolve to shuttle's types, so that every lock, atomic and Once operation inside the crate is a scheduling point -- 12 scenarios (concurrent compiles of different long expressions, to_number on different long strings, sorts / by-functions on shared input, compiles after 127 / 255 distinct expressions were compiled (bounded caches), the hook-level scenarios again incl. searches that re-enter search 40 levels deep), every schedule with at most d deviations from staying on the running thread, one fresh process per schedule. Oracle: every thread's observations (values / full error structs) equal the sequential run; inputs unchanged. states = executions; transitions = scheduling points hit; non-trivial = executions with at least one pre-emption allowed".into();
+    rep.rule = "leg 1 (compile time): Send + Sync obligations on the public types under --features sync and the library under -F unsafe_code; leg 2: for each scenario (2-3 threads on shared Arc<Expression> / shared Arc inputs, chosen to collide: failing calls at different offsets, by-functions with nested calls, a shared literal, a custom runtime whose functions yield, compile inside threads, deep expressions whose evaluations overlap) every schedule with at most c pre-emptions for c = 0,1,2(,3) over the hook points {search-enter, interpret, call, validate, error, get_function, compile}, plus unbounded DFS over the coarse points {search-enter, call, error}; first use of DEFAULT_RUNTIME: one fresh process per schedule with bounded deviations; leg 2c (intercepted synchronisation): the harness built against a rewritten copy of the crate in which std::sync / std::thread / thread_local! resolve to shuttle's types, so that every lock, atomic and Once operation inside the crate is a scheduling point -- 14 scenarios (one thread re-compiling known expressions while another compiles 40 / 300 new ones, concurrent compiles of different long expressions, to_number on different long strings, sorts / by-functions on shared input, compiles after 127 / 255 distinct expressions were compiled (bounded caches), the hook-level scenarios again incl. searches that re-enter search 40 levels deep), every schedule with at most d deviations from staying on the running thread, one fresh process per schedule. Oracle: every thread's observations (values / full error structs) equal the sequential run; inputs unchanged. states = executions; transitions = scheduling points hit; non-trivial = executions with at least one pre-emption allowed".into();
     rep.bounds = json!({"preemption_bounds": bounds, "scenarios": table, "intercepted": intercept_table});
     rep.assumptions.extend(vec![
         "leg 2: steps between two hook points are atomic to the explorer; leg 2c: steps between two synchronisation operations of the crate are; Arc counts are std's and memory orderings weaker than sequential consistency are not modelled by shuttle".into(),
